@@ -34,18 +34,37 @@ func NewFileStorage(dir string) (Storage, error) {
 }
 
 // Set sets the value for a specific key.
+//
+// The value is written to a temporary file which then replaces the file of the key.
+// If the process dies while writing, the key still has its previous value.
 func (f *fileStorage) Set(key string, value []byte) error {
-	file, err := f.fileForWrite(key)
+	path := f.filePathToFile(key)
 
+	file, err := ioutil.TempFile(f.dir(), ".tmp-")
 	if err != nil {
 		return err
 	}
-
-	defer file.Close()
+	tmpPath := file.Name()
 
 	verifCrashPoint("set:opened")
 	_, err = file.Write(value)
 	verifCrashPoint("set:written")
+	if err == nil {
+		err = file.Sync()
+	}
+
+	if cerr := file.Close(); err == nil {
+		err = cerr
+	}
+
+	if err != nil {
+		os.Remove(tmpPath)
+		return err
+	}
+
+	verifCrashPoint("set:closed")
+	err = os.Rename(tmpPath, path)
+	verifCrashPoint("set:renamed")
 	return err
 }
 
@@ -100,10 +119,6 @@ func (f *fileStorage) dir() string {
 func (f *fileStorage) filePathToFile(file string) string {
 	fname := removeInvalidFileNameCharacters(file)
 	return filepath.Join(f.dir(), fname)
-}
-
-func (f *fileStorage) fileForWrite(key string) (*os.File, error) {
-	return os.OpenFile(f.filePathToFile(key), os.O_WRONLY|os.O_CREATE|os.O_TRUNC, 0666)
 }
 
 func (f *fileStorage) fileForRead(key string) (*os.File, error) {
